@@ -352,11 +352,13 @@ func verifStageCase(tmp string, caseNo int, ops []vsOp) string {
 			seen := map[*finalFile]bool{}
 			var timed []*finalFile
 			for _, f := range fire {
+				// only a PENDING timer can fire; stopping it here and calling what it would have called is
+				// the firing (the field stays non-nil, as it does when a timer fires by itself)
 				if !seen[f] && f.wait != nil {
 					seen[f] = true
-					f.wait.Stop()
-					f.wait = nil
-					timed = append(timed, f)
+					if f.wait.Stop() {
+						timed = append(timed, f)
+					}
 				}
 			}
 			e.st.waitLock.Unlock()
@@ -669,7 +671,22 @@ func verifStageMatrix(r *gen.Rand) []vsOp {
 // part of a NEW version of a name that was delivered before (C20); (b) a complete
 // duplicate of a file that is validated and held for its predecessor arrives,
 // then the receiver restarts, then the predecessor arrives (C06, C05)
-func verifStageMatrix2(r *gen.Rand) []vsOp {
+// kind < 0: one of the scenarios at random; otherwise the scenario with that number (0 g, 1 f, 2 e, 3 d,
+// 4 c, 5 a, 6 b), variant selecting among its main alternatives - the first lines of every run go through
+// all of them systematically
+func verifStageMatrix2(r *gen.Rand, kind, variant int) []vsOp {
+	sel := func(k, num, den int) bool {
+		if kind >= 0 {
+			return kind == k
+		}
+		return r.Chance(num, den)
+	}
+	pickN := func(n int) int {
+		if kind >= 0 {
+			return variant % n
+		}
+		return r.Intn(n)
+	}
 	now := time.Now().Unix()
 	mk := func(name, prev string, size int) vsFile {
 		c := make([]byte, size)
@@ -694,7 +711,7 @@ func verifStageMatrix2(r *gen.Rand) []vsOp {
 		recv(f, 0, len(f.content))
 	}
 	names := [][2]string{{"site/data.bin", "site/next.bin"}, {"a", "b"}, {"g.1", "g.2"}, {"d/e/x", "d/y"}}[r.Intn(4)]
-	if r.Chance(1, 7) {
+	if sel(0, 1, 7) {
 		// (g) a name delivered days ago is used again; the new version is live in the stage - held for
 		// a predecessor that is not there yet, or failed validation and awaiting its re-send - when a
 		// poll with an old send time makes the receiver read its log back past the OLD record of that
@@ -727,7 +744,7 @@ func verifStageMatrix2(r *gen.Rand) []vsOp {
 		ops = append(ops, vsOp{kind: "ST"}, vsOp{kind: "SQ", name: S.name, num: -3600}, vsOp{kind: "SQ", name: P.name, num: -3600})
 		return ops
 	}
-	if r.Chance(1, 6) {
+	if sel(1, 1, 6) {
 		// (f) a validated file is held for its predecessor; the first part of a NEW version of the same
 		// name arrives (the companion now describes the new version, the held body is the old one);
 		// restart; the predecessor arrives
@@ -750,7 +767,7 @@ func verifStageMatrix2(r *gen.Rand) []vsOp {
 		}
 		return ops
 	}
-	if r.Chance(1, 5) {
+	if sel(2, 1, 5) {
 		// (e) a stalled partial from an earlier day (later time of day than now) survives a restart:
 		// the range of log days read back starts there; what was delivered TODAY must still be known
 		E := mk(names[0], "", 2+r.Intn(8))
@@ -772,7 +789,7 @@ func verifStageMatrix2(r *gen.Rand) []vsOp {
 		ops = append(ops, vsOp{kind: "ST"})
 		return ops
 	}
-	if r.Chance(1, 4) {
+	if sel(3, 1, 4) {
 		// (d) the staged partial is tampered with between two parts: grown by a tail, cut short,
 		// zeroed - then the remaining parts arrive and the file is complete by the record
 		F := mk(names[0], "", 4+r.Intn(12))
@@ -784,7 +801,7 @@ func verifStageMatrix2(r *gen.Rand) []vsOp {
 		}
 		recv(F, first[0], first[1])
 		var junk []byte
-		switch r.Intn(4) {
+		switch pickN(4) {
 		case 0:
 			junk = append(append([]byte{}, F.content...), []byte("-tail")...)
 		case 1:
@@ -803,7 +820,7 @@ func verifStageMatrix2(r *gen.Rand) []vsOp {
 		}
 		return ops
 	}
-	if r.Chance(1, 3) {
+	if sel(4, 1, 3) {
 		// (c) two days pass after delivery, the cache ages out, then a late retransmission arrives:
 		// the delivery is known from the log only
 		E := mk(names[0], "", 2+r.Intn(8))
@@ -844,7 +861,7 @@ func verifStageMatrix2(r *gen.Rand) []vsOp {
 		}
 		return ops
 	}
-	if r.Chance(1, 2) {
+	if sel(5, 1, 2) {
 		// (a) new version of a delivered name, cleaner between Prepare and the parts
 		v1 := mk(names[0], "", 2+r.Intn(10))
 		v2 := mk(names[0], "", 2+r.Intn(10))
@@ -910,7 +927,7 @@ func verifStageMatrix2(r *gen.Rand) []vsOp {
 func verifStageGen(r *gen.Rand) []vsOp {
 	if r.Chance(1, 4) {
 		if r.Chance(2, 5) {
-			return verifStageMatrix2(r)
+			return verifStageMatrix2(r, -1, 0)
 		}
 		return verifStageMatrix(r)
 	}
@@ -1165,6 +1182,11 @@ func TestVerifStage(t *testing.T) {
 			N = gen.EnvInt("VERIF_STAGE_RANDOM", 5000)
 		}
 		for c := 0; c < N; c++ {
+			if c < 84 {
+				// every directed scenario 12 times, its main alternatives in turn
+				cases = append(cases, verifStageMatrix2(root.Sub(uint64(c)), c%7, c/7))
+				continue
+			}
 			cases = append(cases, verifStageGen(root.Sub(uint64(c))))
 		}
 	}
